@@ -12,7 +12,7 @@ import time
 
 import z3
 
-PROVE_TIMEOUT_MS = int(os.environ.get("PYVC_TIMEOUT_MS", "12000"))
+PROVE_TIMEOUT_MS = int(os.environ.get("PYVC_TIMEOUT_MS", "20000"))
 
 
 class Result:
